@@ -47,7 +47,8 @@ def _trace_viol(res, stage, field):
         d = r["mon"].get(field)
         if d:
             v.append(dict(stage=stage, id=r["id"], iid=r["iid"], what=d[:6], kind=field,
-                          partial=r.get("partial", False)))
+                          partial=r.get("partial", False), cyclic=r["mon"].get("cyclic"),
+                          n=r["mon"].get("n")))
     return v
 
 
@@ -62,14 +63,20 @@ PROPS = {
     "C02": dict(stages=["tables", "lr", "mci_lr"],
                 viol=lambda res: _trace_viol(res, "lr", "c02") + _mci_viol(res, "mci_lr", "C02")
                 + _wf_viol(res, "C02")),
+    "C03": dict(stages=["tables", "glr"],
+                viol=lambda res: _trace_viol(res, "glr", "c03") + _table_viol("C03")(res)),
+    "C07": dict(stages=["tables", "glr"], viol=lambda res: _trace_viol(res, "glr", "c07")),
     "C04": dict(stages=["tables", "mci_lr"],
                 viol=lambda res: _table_viol("C04")(res) + _mci_viol(res, "mci_lr", "C04")),
-    "C12": dict(stages=["tables", "lr", "mci_lr"],
-                viol=lambda res: _trace_viol(res, "lr", "c12") + _mci_viol(res, "mci_lr", "C12")),
-    "C13": dict(stages=["tables", "lr"], viol=lambda res: _trace_viol(res, "lr", "c13")),
+    "C12": dict(stages=["tables", "lr", "mci_lr", "glr"],
+                viol=lambda res: _trace_viol(res, "lr", "c12") + _mci_viol(res, "mci_lr", "C12")
+                + _trace_viol(res, "glr", "c12")),
+    "C13": dict(stages=["tables", "lr", "glr"],
+                viol=lambda res: _trace_viol(res, "lr", "c13") + _trace_viol(res, "glr", "c13")),
     "C14": dict(stages=["tables", "lr"], viol=lambda res: _trace_viol(res, "lr", "c14")),
-    "C15": dict(stages=["tables", "lr", "mci_lr"],
-                viol=lambda res: _trace_viol(res, "lr", "c15") + _mci_viol(res, "mci_lr", "C15")),
+    "C15": dict(stages=["tables", "lr", "mci_lr", "glr"],
+                viol=lambda res: _trace_viol(res, "lr", "c15") + _mci_viol(res, "mci_lr", "C15")
+                + _trace_viol(res, "glr", "c15")),
 }
 
 
@@ -85,6 +92,12 @@ def known_match(prop, v, ctx):
         if sig.get("what") and not (set(sig["what"]) & names):
             continue
         if sig.get("only_what") and not names <= set(sig["only_what"]):
+            continue
+        if sig.get("stage") and sig["stage"] != v.get("stage"):
+            continue
+        if "cyclic" in sig and sig["cyclic"] != v.get("cyclic"):
+            continue
+        if "min_solutions" in sig and not (v.get("n") or 0) >= sig["min_solutions"]:
             continue
         pred = sig.get("pred")
         if pred and not stages.PREDICATES[pred](v, ctx):
